@@ -76,11 +76,15 @@ type Model struct {
 	// LenientZ: property C10 does not say whether a ReadyForQuery directly
 	// follows the 54000 error of an oversized extended message (C06 does).
 	LenientZ bool
+	// StrictTerminate: C19 states unconditionally that a Terminate message runs
+	// the hook and closes the connection, so for C19 a Terminate received while
+	// discarding-until-Sync must be honoured (C06 leaves that open).
+	StrictTerminate bool
 }
 
 // NewModel builds the model for a case.
 func NewModel(c *Case) *Model {
-	m := &Model{Cfg: &c.Server, Programs: c.Programs, Limit: c.Server.Limit}
+	m := &Model{Cfg: &c.Server, Programs: c.Programs, Limit: c.Server.Limit, StrictTerminate: c.Prop == "C19"}
 	if m.Limit <= 0 {
 		m.Limit = 1 << 24
 	}
@@ -618,6 +622,9 @@ func (m *Model) Step(st *MState, msgs []pgwire.FMsg, i int) []Branch {
 			}
 			closed := st.clone()
 			closed.Phase = "closed"
+			if m.StrictTerminate {
+				return []Branch{{Ev: ev, Next: closed, End: true, Consumed: 1}}
+			}
 			return []Branch{{Next: st, Consumed: 1}, {Ev: ev, Next: closed, End: true, Consumed: 1}}
 		case !known:
 			closed := st.clone()
